@@ -256,7 +256,9 @@ func (g *progGen) compStmt(depth int) *tw.Stmt {
 		body = append(body, &tw.Stmt{Kind: tw.SSlot, Name: ""})
 		if rapid.IntRange(0, 3).Draw(g.rt, "passSlot") > 0 {
 			g.push()
+			g.inComp = depth < 2 // a use inside a slot body is written in the page
 			sb := g.block(depth-1, false)
+			g.inComp = true
 			g.pop()
 			g.Feat["slot-body"]++
 			st.Slots = append(st.Slots, &tw.Stmt{Kind: tw.SSlot, Name: "", Body: sb, Text: rapid.SampledFrom([]string{"\n", " ", ""}).Draw(g.rt, "slotWs")})
